@@ -68,6 +68,11 @@ Definition pinned_cache_keys : list cache_key := [
   CacheKey "name_check_visitor.py" "NameCheckVisitor._set_argspec_to_retval" "self._argspec_to_retval" "store" "id(sig)";
   CacheKey "name_check_visitor.py" "NameCheckVisitor.get_local_return_value" "self._argspec_to_retval" "get" "id(sig)";
   CacheKey "name_check_visitor.py" "NameCheckVisitor.visit" "self._method_cache" "load" "node_type := type(node)";
+  (* since /repo 4178e01: per-Constraint-object memo of apply_to_value for one_of/all_of, keyed by the
+     identity of the value object and re-checked with `entry[0] is value` (the entry keeps the value alive);
+     the same commit memoises apply()/invert() results on the constraint object itself (`_applied`, `_inverted`) *)
+  CacheKey "stacked_scopes.py" "Constraint._apply_compound" "cache" "get" "id(value)";
+  CacheKey "stacked_scopes.py" "Constraint._apply_compound" "cache" "store" "id(value)";
   CacheKey "type_object.py" "TypeObject.can_assign" "self._protocol_positive_cache" "get" "other_val";
   CacheKey "type_object.py" "TypeObject.can_assign" "self._protocol_positive_cache" "store" "other_val"
 ]%list.
